@@ -304,6 +304,10 @@ structure DSt where
       a container that alters a value without executing anything and without raising is C02's matter — and consumes
       `builds` only. -/
   valueFacts : Bool := true
+  /-- the console the evaluation entry points write their progress line to (`console` line), and the number of writes
+      that stream has seen -/
+  console : Console := .utf8
+  written : Nat := 0
 
 def parsePairs {α} (f : String → Option α) (s : String) : List (α × Prim) :=
   (splitComma s).filterMap fun kv =>
@@ -387,6 +391,16 @@ def step (st : DSt) (toks : List String) : DSt × String :=
   | ["tool", hn, hl, caps, beh, _route] => (regTool st hn hl caps beh, "ok")
   -- `engine.timeout` re-assigned on the live engine: with 0 / 0.0 / None the efficiency computation of a SUCCESS raises
   -- (ZeroDivisionError / TypeError) — inside the handler, so the call ends as a counted failure
+  -- `sys.stdout` replaced for the evaluation calls that follow: a fresh stream of the given kind
+  | ["console", kind, k] =>
+    let c : Console := match kind with
+      | "closed" => .closed
+      | "ascii" | "latin1" | "cp1252" => .narrow
+      | "asciirepl" | "asciibs" => .lossy
+      | "failat" | "failatv" => .failAt (natD k)
+      | _ => .utf8
+    ({ st with console := c, written := 0 }, "ok ## console:" ++ (match c with
+      | .utf8 => "utf8" | .closed => "closed" | .narrow => "narrow" | .lossy => "lossy" | .failAt _ => "failat"))
   | ["retimeout", k] => ({ st with cfg := { st.cfg with timeoutZero := k != "pos" } }, "ok ## retimeout")
   | ["untool", hn] =>
     let n := strOfHex hn
@@ -398,8 +412,10 @@ def step (st : DSt) (toks : List String) : DSt × String :=
     match parseTree tree with
     | none => (st, "bad-tree")
     | some parsed =>
-      let inp : Inp := ⟨natD len, parsed, if beta = "none" then none else valOfString beta, boolOf pr⟩
       let latched := st.ros >= st.maxRos
+      let cw := consoleStep st.cfg latched st.console st.written (natD len) (boolOf pr)
+      let st := { st with written := cw.2 }
+      let inp : Inp := ⟨natD len, parsed, if beta = "none" then none else valOfString beta, cw.1⟩
       -- values of the tracer world always render as text
       let (tr, out) := digestGlucose st.T (envOf st) st.cfg latched inp false
       let failed := match out with | .text true => false | _ => true
@@ -418,9 +434,11 @@ def step (st : DSt) (toks : List String) : DSt × String :=
       let betaV := match parsed.bind litEval with
         | some v => some v
         | none => if beta = "none" then none else valOfString beta
-      let inp : Inp := ⟨natD len, parsed, betaV, boolOf pr⟩
-      let (d, dtag) := detect (st.toolsLower.map (·.2)) (decodeCps raw) (decodeCps low)
       let latched := st.ros >= st.maxRos
+      let cw := consoleStep st.cfg latched st.console st.written (natD len) (boolOf pr)
+      let st := { st with written := cw.2 }
+      let inp : Inp := ⟨natD len, parsed, betaV, cw.1⟩
+      let (d, dtag) := detect (st.toolsLower.map (·.2)) (decodeCps raw) (decodeCps low)
       -- what the caller sees: the engine's outcome through the result containers
       let box : Box := if st.valueFacts then st.box else { st.box with valueKept := true }
       let (tr, out) := metabolizeD st.T (envOf st) st.cfg box latched d inp (pathwayOfName forced)
